@@ -331,6 +331,13 @@ func c13r2(c *Ctx) {
 			}
 			src, _ := asCall(args[0])
 			if src == nil {
+				// the table may be built in place (a single-use constructor merged into its caller):
+				// then this function is the constructor and the entries of the literal are judged here
+				if maps, okLit := c13LocalFuncMaps(p, args[0]); okLit {
+					o.OK("built in place in " + shortFuncID(fn))
+					c13CheckFuncMapEntries(c, c.Ob(fn, "funcmap-constructor", call.Instr, "a template function table contains only repository functions and allow-listed sprig functions"), fn, maps, call.Instr)
+					continue
+				}
 				o.Fail("function table %s is not the direct result of a constructor call", p.describe(args[0]))
 				continue
 			}
@@ -423,28 +430,113 @@ func c13CheckFuncMapCtor(c *Ctx, g *ssa.Function) {
 		o.Unknown("no returned map literal found")
 		return
 	}
+	c13CheckFuncMapEntries(c, o, g, maps, nil)
+}
+
+// c13LocalFuncMaps: every value v can stand for is a map made in v's own function (`template.FuncMap{…}`
+// or `m := template.FuncMap{}; m[k] = f` handed on directly, possibly converted or merged by a Phi).
+func c13LocalFuncMaps(p *Program, v ssa.Value) ([]*ssa.MakeMap, bool) {
+	var maps []*ssa.MakeMap
+	seen := map[ssa.Value]bool{}
+	var walk func(v ssa.Value, d int) bool
+	walk = func(v ssa.Value, d int) bool {
+		v = stripConv(v)
+		if seen[v] {
+			return true
+		}
+		seen[v] = true
+		switch x := v.(type) {
+		case *ssa.MakeMap:
+			maps = append(maps, x)
+			return true
+		case *ssa.Phi:
+			if d <= 0 {
+				return false
+			}
+			for _, e := range x.Edges {
+				if !walk(e, d-1) {
+					return false
+				}
+			}
+			return true
+		}
+		return false
+	}
+	if !walk(v, 3) || len(maps) == 0 {
+		return nil, false
+	}
+	return maps, true
+}
+
+// c13CheckFuncMapEntries judges the function tables `maps` built in g. sink == nil: g is a
+// constructor that returns the table. sink != nil: the table is built in place and handed to the
+// call `sink` ((*template.Template).Funcs); then every other way the map could leave g or be filled
+// elsewhere (another call, a store, a capture) is a problem.
+func c13CheckFuncMapEntries(c *Ctx, o *Obligation, g *ssa.Function, maps []*ssa.MakeMap, sink ssa.Instruction) {
+	p := c.P
 	var problems, notes []string
 	guarded := 0
 	for _, mm := range maps {
-		for _, r := range referrersOf(mm) {
-			switch x := r.(type) {
-			case *ssa.MapUpdate:
-				if x.Map != ssa.Value(mm) {
-					continue
+		// the map and its value-preserving conversions (map[string]any <-> template.FuncMap)
+		aliases := []ssa.Value{mm}
+		isAlias := map[ssa.Value]bool{mm: true}
+		for i := 0; i < len(aliases); i++ {
+			for _, r := range referrersOf(aliases[i]) {
+				switch x := r.(type) {
+				case *ssa.ChangeType:
+					if !isAlias[x] {
+						isAlias[x] = true
+						aliases = append(aliases, x)
+					}
+				case *ssa.Phi:
+					if sink != nil && !isAlias[x] {
+						isAlias[x] = true
+						aliases = append(aliases, x)
+					}
 				}
-				kind, why := c13FuncMapValue(p, g, x)
-				switch kind {
-				case "repo":
-				case "sprig-guarded":
-					guarded++
-					notes = append(notes, why)
+			}
+		}
+		for _, a := range aliases {
+			for _, r := range referrersOf(a) {
+				switch x := r.(type) {
+				case *ssa.MapUpdate:
+					if !isAlias[x.Map] {
+						if sink != nil {
+							problems = append(problems, "the table is stored into another map at "+p.IPos(x))
+						}
+						continue
+					}
+					kind, why := c13FuncMapValue(p, g, x)
+					switch kind {
+					case "repo":
+					case "sprig-guarded":
+						guarded++
+						notes = append(notes, why)
+					default:
+						problems = append(problems, why+" at "+p.IPos(x))
+					}
+				case *ssa.DebugRef, *ssa.ChangeType, *ssa.Lookup, *ssa.Phi:
+				case *ssa.Return, *ssa.MakeInterface:
+					if sink != nil {
+						problems = append(problems, "the table built in place also leaves "+shortFuncID(g)+" at "+p.IPos(x))
+					}
+				case ssa.CallInstruction:
+					if sink != nil && x == sink {
+						continue
+					}
+					if sink != nil {
+						if isCallTo(x.Common(), "(*"+pkgTextTmpl+".Template).Funcs", "(*html/template.Template).Funcs") {
+							continue // another registration of the same table, judged at its own site
+						}
+						problems = append(problems, "map is passed to "+calleeID(x.Common())+" at "+p.IPos(x))
+						continue
+					}
+					problems = append(problems, "map is passed to "+calleeID(x.Common())+" before being returned at "+p.IPos(x))
 				default:
-					problems = append(problems, why+" at "+p.IPos(x))
+					if sink != nil {
+						problems = append(problems, "the table built in place escapes at "+p.IPos(r))
+					}
 				}
-			case *ssa.Return, *ssa.DebugRef, *ssa.ChangeType, *ssa.MakeInterface:
-			case *ssa.Lookup:
-			case ssa.CallInstruction:
-				problems = append(problems, "map is passed to "+calleeID(x.Common())+" before being returned at "+p.IPos(x))
 			}
 		}
 	}
@@ -1548,25 +1640,12 @@ func c13r4(c *Ctx) {
 			o.OK()
 		}
 	}
-	// labels: parseObjects merges commonLabels into every appended (non-empty) document
+	// labels: parseObjects merges the two package labels into every appended (non-empty) document.
+	// The label map is judged where it is built: in a helper whose every return is the literal
+	// (pinned tree: commonLabels) or in place as the second argument of labels.Merge.
 	parse := c.MustFunc(pkgPkgRender, "parseObjects")
-	common := c.MustFunc(pkgPkgRender, "commonLabels")
-	if parse == nil || common == nil {
+	if parse == nil {
 		return
-	}
-	{
-		o := c.Ob(common, "commonLabels-keys", nil, "commonLabels returns exactly {PackageLabel, PackageInstanceLabel}")
-		okKeys := false
-		for _, rc := range p.returnCases(common) {
-			kv, ok := mapLiteral(rc.Results[0])
-			if ok && len(kv) == 2 && kv[consts["PackageLabel"]] != nil && kv[consts["PackageInstanceLabel"]] != nil {
-				okKeys = true
-			} else {
-				okKeys = false
-				break
-			}
-		}
-		o.Decide(okKeys, "commonLabels does not return a literal with exactly the package and instance labels")
 	}
 	{
 		var app *ssa.Call
@@ -1594,20 +1673,109 @@ func c13r4(c *Ctx) {
 			o.Unknown("appended element is not a load of the parsed object")
 			return
 		}
-		merged := p.mustPrecede(app, func(in ssa.Instruction) bool {
+		// mergeSource: in is obj.SetLabels(labels.Merge(obj.GetLabels(), X)); returns X
+		mergeSource := func(in ssa.Instruction) ssa.Value {
 			ci, ok := in.(ssa.CallInstruction)
 			if !ok || calleeName(ci.Common()) != "SetLabels" || callRecv(ci.Common()) != obj {
-				return false
+				return nil
 			}
 			mc, _ := asCall(callArgs(ci.Common())[0])
 			if mc == nil || !isCallTo(mc.Common(), "k8s.io/apimachinery/pkg/labels.Merge") {
-				return false
+				return nil
 			}
 			a := mc.Common().Args
 			g1, _ := asCall(a[0])
-			g2, _ := asCall(a[1])
-			return g1 != nil && calleeName(g1.Common()) == "GetLabels" && callRecv(g1.Common()) == obj &&
-				g2 != nil && staticCallee(g2.Common()) == common
+			if g1 == nil || calleeName(g1.Common()) != "GetLabels" || callRecv(g1.Common()) != obj {
+				return nil
+			}
+			return a[1]
+		}
+		// exactKeys: v is a map literal, complete before `use`, with exactly the two package labels
+		exactKeys := func(v ssa.Value, use ssa.Instruction) bool {
+			mm, isMM := stripConv(v).(*ssa.MakeMap)
+			if !isMM {
+				return false
+			}
+			kv, ok := mapLiteral(mm)
+			if !ok || len(kv) != 2 || kv[consts["PackageLabel"]] == nil || kv[consts["PackageInstanceLabel"]] == nil {
+				return false
+			}
+			for _, r := range referrersOf(mm) {
+				if mu, isMU := r.(*ssa.MapUpdate); isMU && mu.Map == ssa.Value(mm) {
+					if mu.Block() != use.Block() && !mu.Block().Dominates(use.Block()) {
+						return false // a label that is set only on some paths
+					}
+				} else if _, isDel := r.(ssa.CallInstruction); isDel && r != use {
+					if cc := r.(ssa.CallInstruction).Common(); isCallTo(cc, "builtin:delete") {
+						return false
+					}
+				}
+			}
+			return true
+		}
+		// one obligation per label source that a merge into obj uses
+		type src struct {
+			fn  *ssa.Function // the helper that builds the label map (nil: built in place)
+			at  ssa.Instruction
+			val ssa.Value
+		}
+		var sources []src
+		seenSrc := map[string]bool{}
+		for _, b := range parse.Blocks {
+			for _, in := range b.Instrs {
+				x := mergeSource(in)
+				if x == nil {
+					continue
+				}
+				s := src{at: in, val: x}
+				key := "inplace"
+				if call, _ := asCall(x); call != nil {
+					if g := staticCallee(call.Common()); g != nil && p.isWorkspaceFunc(g) && funcHasBody(g) {
+						s.fn = g
+						key = g.String()
+					}
+				}
+				if seenSrc[key] && s.fn != nil {
+					continue // the same helper again: judged once
+				}
+				seenSrc[key] = true
+				okKeys := false
+				var ob *Obligation
+				if s.fn != nil {
+					ob = c.Ob(s.fn, "commonLabels-keys", nil, "commonLabels returns exactly {PackageLabel, PackageInstanceLabel}")
+					for _, rc := range p.returnCases(s.fn) {
+						if len(rc.Results) == 1 && rc.Results[0] != nil && exactKeys(rc.Results[0], rc.Ret) {
+							okKeys = true
+						} else {
+							okKeys = false
+							break
+						}
+					}
+				} else {
+					ob = c.Ob(parse, "commonLabels-keys", in, "the label map merged into every parsed object is exactly {PackageLabel, PackageInstanceLabel}")
+					okKeys = exactKeys(x, in)
+				}
+				ob.Decide(okKeys, "the labels merged into the parsed object are not a literal with exactly the package and instance labels")
+				sources = append(sources, s)
+			}
+		}
+		if len(sources) == 0 {
+			c.Ob(parse, "commonLabels-keys", nil, "the label map merged into every parsed object is exactly {PackageLabel, PackageInstanceLabel}").
+				Unknown("no obj.SetLabels(labels.Merge(obj.GetLabels(), <labels>)) found in parseObjects")
+		}
+		merged := p.mustPrecede(app, func(in ssa.Instruction) bool {
+			x := mergeSource(in)
+			if x == nil {
+				return false
+			}
+			// which labels are merged is the commonLabels-keys obligation; here: some recognised
+			// label source (helper result or literal) is merged on every path
+			if call, _ := asCall(x); call != nil {
+				g := staticCallee(call.Common())
+				return g != nil && p.isWorkspaceFunc(g) && funcHasBody(g)
+			}
+			_, isMM := stripConv(x).(*ssa.MakeMap)
+			return isMM
 		})
 		// and the append is skipped only for empty documents
 		skipOK := true
